@@ -1220,6 +1220,15 @@ func (db *DB) Repair(of Object) (err error) {
 		return
 	}
 
+	// objects waiting for an asynchronous write are not on disk yet, they
+	// must be written first otherwise they would be considered as deleted
+	// and removed from the index
+	if s.asyncWritesEnabled() {
+		if err = db.flushAll(of); err != nil {
+			return
+		}
+	}
+
 	// we re-index missing objects in index
 	if uuids, err = uuidsFromDir(dir); err != nil {
 		return
